@@ -23,7 +23,7 @@ PROPS = {
             "the two tree walkers that call const_eval (const_simplify::Visitor::visit_expr, context::consts::_const_eval): "
             "post-order folding, ternary selection, const definition chains, cycle detection",
             "that AstVm (the run-time oracle of the test-suite) models the game engines",
-            "float `%` and sin/cos/tan/asin/acos/atan (CBMC over-approximates them); sqrt is claimed only in the thorough tier",
+            "float `%`, sqrt and sin/cos/tan/asin/acos/atan (CBMC over-approximates them: a sqrt obligation produced a counterexample that passes natively)",
         ],
         "bounds": [
             "int / and %: the full quotient/remainder equation is discharged only for |a|,|b| <= 4096 plus MIN/-1 "
@@ -177,5 +177,27 @@ PROPS = {
         ],
         "trusted_base": ["stubs: alloc::fmt::format, ErrorReported::new (no backtrace), io::nice_display_path"],
         "assumptions": ["fields a format does not store are fixed to RawInstr::DEFAULTS in the input (the source cannot request them)"],
+    },
+    "C16": {
+        "functions_under_contract": [
+            "InstrFormat::read_instr of MsgHooks, InstrFormat06, InstrFormat07, StdHooks06, StdHooks10, OldeEclHooks, TimelineFormat06, "
+            "TimelineFormat08, ModernEclHooks: panic-freedom on arbitrary header bytes",
+            "LanguageHooks::decode_label (default, StdHooks06, OldeEclHooks, ModernEclHooks): panic-freedom on arbitrary jump arguments",
+        ],
+        "unverified": [
+            "EVERYTHING ELSE the property covers: file-level readers (read_anm / read_entry / read_texture, read_std, read_msg, "
+            "read_olde_ecl, ecl_10, mission), decompilation (raise passes, block recovery, formatter) and image extraction - they go through "
+            "IndexMaps, seeks, io::Error paths and the `image` crate",
+            "EOF inside an instruction (the io::Error path) and that an error is rendered 'naming the file'",
+            "termination and memory use of the whole read (hang / out of memory)",
+            "observation outside the claimed set: produce_image_from_entry (anm/image_io.rs) panics on a texture whose data size does not "
+            "match width*height*bpp (`assert_eq!` in ColorBytes::decode, `.expect(\"size error?!\")`); read_texture only warns",
+        ],
+        "bounds": [
+            "per obligation the buffer length and the value of the size field are concrete (values below, at and above the header size, "
+            "and the sign-extension value 0xFFFF); every other byte of the header and of the arguments is symbolic",
+        ],
+        "trusted_base": ["stubs: alloc::fmt::format, ErrorReported::new (no backtrace), io::nice_display_path"],
+        "assumptions": ["the buffer holds as many bytes as the size field announces (the EOF path is not exercised)"],
     },
 }
